@@ -171,11 +171,11 @@ CmpOk ==
     /\ Adv(c = Cmp(a, b), "order of two invalid ranks")
 
 CmpInts(x, y) == IF x < y THEN "Less" ELSE IF x > y THEN "Greater" ELSE "Equal"
+\* NamePos / ClassPos put the Invalid member after every real one: an invalid rank compares below every
+\* valid one, and "sorting by rank, category or class never contradicts sorting by strength" (C07).
 EnumCmpOk ==
-    /\ (IsRealValue(Ev.a) /\ IsRealValue(Ev.b)) =>
-         /\ Ev.name_cmp = CmpInts(NamePos(Ev.a), NamePos(Ev.b))                             \* C07
-         /\ Ev.class_cmp = CmpInts(ClassPos(Ev.a), ClassPos(Ev.b))
-    /\ Adv(Ev.class_cmp = CmpInts(ClassPos(Ev.a), ClassPos(Ev.b)), "position of Invalid in the enumerations")
+    /\ Ev.name_cmp = CmpInts(NamePos(Ev.a), NamePos(Ev.b))                                  \* C07
+    /\ Ev.class_cmp = CmpInts(ClassPos(Ev.a), ClassPos(Ev.b))
 
 ChenOk ==
     LET a == Ev.a b == Ev.b IN
